@@ -270,6 +270,26 @@ impl C17 {
                 return fail(col, "strings-or-frame-share-bytes", format!("[{:#x},+{}) and [{:#x},+{})", w[0].0, w[0].1, w[1].0, w[1].1));
             }
         }
+        // what the call created is protected like any other area: an older area cannot later grow over it
+        let new_areas: Vec<&AreaView> = after.iter().filter(|a| is_new(a) && a.length > 0).collect();
+        for old in before.iter().filter(|b| b.length > 0) {
+            if let Some(victim) = new_areas.iter().filter(|n| n.start > old.start).min_by_key(|n| n.start) {
+                let reach = victim.start - old.start + 8;
+                if reach > 0x4000_0000 || before.iter().any(|o| o.start > old.start && o.start < victim.start && o.length > 0) || new_areas.iter().any(|o| o.start > old.start && o.start < victim.start) {
+                    continue;
+                }
+                let r = call(|| ax.mem_resize_section(old.start, reach));
+                col.eval(1);
+                col.distinct_key("later-growth-over-the-frame");
+                if r.is_panic() {
+                    return fail(col, &format!("panic:{}", r.panic_key()), r.describe());
+                }
+                if r.is_ok() {
+                    return fail(col, "older-area-grew-over-what-the-call-created", format!("mem_resize_section({:#x}, {:#x}) succeeded although [{:#x},+{:#x}) created by the call lies in the way", old.start, reach, victim.start, victim.length));
+                }
+                break;
+            }
+        }
         if col.want_sample() {
             col.push_sample(json!({"call": desc, "rsp": format!("{:#x}", rsp), "stack_area": format!("[{:#x},+{:#x})", stack.start, stack.length), "first_pops": popped.iter().take(4).map(|v| format!("{:#x}", v)).collect::<Vec<_>>()}));
         }
